@@ -5,6 +5,13 @@ HERE = os.path.dirname(os.path.abspath(__file__))
 ALL = ["C%02d" % i for i in range(1, 21)]
 
 CHECKS = {
+ "C06": dict(
+  engine="girvm",
+  technique="recording wrapper on analyze_reachable_symbols (union over all visits of the in-sets, per analysis frame) judged against dynamic last-definition events of validated executions and against a textbook reaching-definitions solver run on lian's own CFG and definition sets",
+  category="exploration",
+  text="Intraprocedural def/use skeletons (3 variables; every nesting of if/else, while, counted for, for-in, do-while, break, continue, early return; Python and JavaScript; a third of the batches with --enable-p2) are analysed by real `semantic` runs while a wrapper records, per statement, the (symbol, defining statement) pairs of in_symbol_bits over all visits and the symbols the statement defines. Soundness: every use event of the reference executor (execution validated against CPython/node; loops taken 0 or 1 times; all decision vectors up to 32) must find its last definition in the recorded set. Precision: the recorded set must lie inside the may-reach solution of a 20-line worklist solver on lian's CFG/def sets, and equal it on loop-free methods. Floors: >=5000 recorded visits, >=3000 use events, >=100 statements visited more than once.",
+  note="Trusted: the reference executor's def/use events (validated per input against CPython/node outputs), the textbook solver. The observed object is the union over visits (the symbol graph accumulates edges the same way); CFG and def-use extraction faults belong to C04/C05. Loop headers are may-definitions of the loop variable.",
+  design="DESIGN.md §C06"),
  "C04": dict(
   engine="girvm",
   technique="trace-containment monitor: per-activation statement traces of the reference executor (validated per input against CPython / node) checked against the CFG lian stores in semantic_p1/cfg.bundle*, over systematically enumerated and random control-flow skeletons x enumerated decision vectors",
